@@ -458,6 +458,7 @@ def rsa_case(item, deep):
         wp, wq = KNOWN_N.get(n, (0, 0))
         w = rsa_w(n, e, d, wp, wq, None, False) if has["d"] else rsa_w(0, 0, 0, 0, 0, None, False)
     w["wp"], w["wq"] = nat(wp), nat(wq)
+    w["gne"] = gcd_w(n, e)                         # gcd(n, e): the library refuses a public exponent that shares a factor with the modulus
     ok = has["crt"] and p > 1 and q > 1 and d >= 0 and t["qi"] >= 0
     w.update({"kdp": limbs(d // (p - 1)) if ok else [], "kdq": limbs(d // (q - 1)) if ok else [], "kinv": limbs(t["qi"] * q // p) if ok else []})
     rec, kw = rsa_key_record(key, deep)
